@@ -64,22 +64,26 @@ theorem cpx_of_calls {X s : St} (h : X.calls = s.calls) (n : Nat) : cpx X n = cp
 @[simp] theorem cpx_tail (s : St) (n : Nat) : cpx (tail s) n = cpx s n := cpx_of_calls (tail_calls s) n
 @[simp] theorem cpx_markBroken (s : St) (n : Nat) : cpx (markBroken s) n = cpx s n := cpx_of_calls (markBroken_calls s) n
 
+/-- `retire` changes neither the program counter nor the context flag of any call. -/
+theorem retireIn_map_pcx (s : St) (m : Nat) (r : Res) :
+    (retireIn s m r).calls.map (fun c => (c.pc, c.ctxDone)) = s.calls.map (fun c => (c.pc, c.ctxDone)) := by
+  cases hc : getCall s m with
+  | none => simp [retireIn, hc]
+  | some c =>
+    have key : ∀ c' : Call, c'.pc = c.pc → c'.ctxDone = c.ctxDone →
+        (s.calls.modify (m - 1) fun _ => c').map (fun c => (c.pc, c.ctxDone)) = s.calls.map (fun c => (c.pc, c.ctxDone)) := by
+      intro c' hpc hcx
+      apply List.ext_getElem?; intro j
+      simp only [List.getElem?_map, List.getElem?_modify]
+      by_cases hj : m - 1 = j
+      · subst hj; simp [calls_get0 hc, hpc, hcx]
+      · simp [hj]
+    cases hr : c.ready with
+    | some x => simp only [retireIn, hc, retireCall, hr, if_true]; exact key c rfl rfl
+    | none => simp only [retireIn, hc, retireCall, hr]; exact key _ rfl rfl
+
 theorem cpx_retireIn (s : St) (m : Nat) (r : Res) (n : Nat) : cpx (retireIn s m r) n = cpx s n := by
-  have hmap : (retireIn s m r).calls.map (fun c => (c.pc, c.ctxDone)) = s.calls.map (fun c => (c.pc, c.ctxDone)) := by
-    cases hc : getCall s m with
-    | none => simp [retireIn, hc]
-    | some c =>
-      have key : ∀ c' : Call, c'.pc = c.pc → c'.ctxDone = c.ctxDone →
-          (s.calls.modify (m - 1) fun _ => c').map (fun c => (c.pc, c.ctxDone)) = s.calls.map (fun c => (c.pc, c.ctxDone)) := by
-        intro c' hpc hcx
-        apply List.ext_getElem?; intro j
-        simp only [List.getElem?_map, List.getElem?_modify]
-        by_cases hj : m - 1 = j
-        · subst hj; simp [calls_get0 hc, hpc, hcx]
-        · simp [hj]
-      cases hr : c.ready with
-      | some x => simp only [retireIn, hc, retireCall, hr, if_true]; exact key c rfl rfl
-      | none => simp only [retireIn, hc, retireCall, hr]; exact key _ rfl rfl
+  have hmap := retireIn_map_pcx s m r
   unfold cpx
   simp only [getCall_eq]
   split
@@ -411,20 +415,20 @@ theorem settle_from {s0 : St} {n : Nat} {p0 : CallPc} {x0 : Bool} (h : cpx s0 n 
   exact ⟨c0, settleCall c0, hc0, hp, hx, by rw [getCall_settle, hc0]; rfl, rfl, by rw [settleCall_ctx, hx]⟩
 
 /-- **caller_step.** Any label of the model, executed in any state, seen from call `n`: the call still
-exists, a done context stays done, and its program counter moves according to `CStep`. No invariant is
-needed. -/
+exists, its context flag is unchanged unless the label is the cancellation of that very context, and its
+program counter moves according to `CStep`. No invariant is needed. -/
 theorem caller_step {s s' : St} {l : Label} (h : step s l = some s') {n : Nat} {c : Call} (hc : getCall s n = some c) :
-    ∃ c', getCall s' n = some c' ∧ (c.ctxDone = true → c'.ctxDone = true) ∧
+    ∃ c', getCall s' n = some c' ∧ (c'.ctxDone = c.ctxDone ∨ (l = .ectx n ∧ c'.ctxDone = true)) ∧
       CStep s.shuttingDown c.ctxDone (l.ofCaller n) c.pc c'.pc := by
   simp only [step, Option.map_eq_some_iff] at h
   obtain ⟨s0, h0, rfl⟩ := h
   -- everything that leaves (pc, ctx) alone before `settle`
   have keep : cpx s0 n = some (c.pc, c.ctxDone) → l.ofCaller n = false →
-      ∃ c', getCall (settle s0) n = some c' ∧ (c.ctxDone = true → c'.ctxDone = true) ∧
+      ∃ c', getCall (settle s0) n = some c' ∧ (c'.ctxDone = c.ctxDone ∨ (l = .ectx n ∧ c'.ctxDone = true)) ∧
         CStep s.shuttingDown c.ctxDone (l.ofCaller n) c.pc c'.pc := by
     intro hx hown
     obtain ⟨c0, c', hc0, hp, hxx, hg, rfl, hcx⟩ := settle_from hx
-    refine ⟨_, hg, fun hh => by rw [hcx]; exact hh, ?_⟩
+    refine ⟨_, hg, Or.inl hcx, ?_⟩
     rw [hown]
     by_cases ha : c0.pc = .await
     · rcases settleCall_await c0 ha with ⟨h1, _, _⟩ | ⟨h1, _, h3⟩ | ⟨h1, _⟩
@@ -438,7 +442,7 @@ theorem caller_step {s s' : St} {l : Label} (h : step s l = some s') {n : Nat} {
       subst hidx
       have hx := env_ectx h0 hc
       obtain ⟨c0, c', hc0, hp, hxx, hg, rfl, hcx⟩ := settle_from hx
-      refine ⟨_, hg, fun _ => hcx, ?_⟩
+      refine ⟨_, hg, Or.inr ⟨rfl, hcx⟩, ?_⟩
       have hown : (Label.ectx m).ofCaller m = false := rfl
       rw [hown]
       by_cases ha : c0.pc = .await
@@ -456,22 +460,22 @@ theorem caller_step {s s' : St} {l : Label} (h : step s l = some s') {n : Nat} {
       rw [hown, hpc]
       rcases hcase with ⟨hx, hx0 | ⟨e, hx0⟩⟩ | ⟨e, hx0⟩
       · obtain ⟨c0, c', hc0, hp, hxx, hg, rfl, hcx⟩ := settle_from hx0
-        refine ⟨_, hg, fun hh => (by rw [hx] at hh; cases hh), ?_⟩
+        refine ⟨_, hg, Or.inl (hcx.trans hx.symm), ?_⟩
         rcases settleCall_await c0 hp with ⟨h1, _, _⟩ | ⟨h1, _, _⟩ | ⟨_, h3⟩
         · rw [h1]; exact .wret_await hx
         · rw [h1]; exact .wret_fin hx
         · rw [hxx] at h3; cases h3
       · obtain ⟨c0, c', hc0, hp, hxx, hg, rfl, hcx⟩ := settle_from hx0
-        refine ⟨_, hg, fun hh => (by rw [hx] at hh; cases hh), ?_⟩
+        refine ⟨_, hg, Or.inl (hcx.trans hx.symm), ?_⟩
         rw [settleCall_pc_ne c0 (by rw [hp]; simp), hp]; exact .wret_w2 e hx
       · obtain ⟨c0, c', hc0, hp, hxx, hg, rfl, hcx⟩ := settle_from hx0
-        refine ⟨_, hg, fun hh => hcx.trans hh, ?_⟩
+        refine ⟨_, hg, Or.inl hcx, ?_⟩
         rw [settleCall_pc_ne c0 (by rw [hp]; simp), hp]; exact .wret_r e
     case c1 m =>
       subst hidx
       have hown : (Label.c1 m).ofCaller m = true := by simp [Label.ofCaller]
       obtain ⟨hpc, c0, hc0, hx0, hcase⟩ := own_c1 h0 hc
-      refine ⟨settleCall c0, by rw [getCall_settle, hc0]; rfl, fun hh => by rw [settleCall_ctx, hx0]; exact hh, ?_⟩
+      refine ⟨settleCall c0, by rw [getCall_settle, hc0]; rfl, Or.inl (by rw [settleCall_ctx, hx0]), ?_⟩
       rw [hown, hpc]
       rcases hcase with ⟨hsd, hp⟩ | ⟨hsd, hp, hr⟩
       · rw [settleCall_pc_ne c0 (by rw [hp]; simp), hp]; exact .c1_reg hsd
@@ -485,14 +489,14 @@ theorem caller_step {s s' : St} {l : Label} (h : step s l = some s') {n : Nat} {
       rw [hown]
       rcases own_retire h0 hc with ⟨⟨e, hpc⟩, hx0⟩ | ⟨hpc, hx0⟩
       · obtain ⟨c0, c', hc0, hp, hxx, hg, rfl, hcx⟩ := settle_from hx0
-        refine ⟨_, hg, fun hh => hcx.trans hh, ?_⟩
+        refine ⟨_, hg, Or.inl hcx, ?_⟩
         rw [hpc]
         rcases settleCall_await c0 hp with ⟨h1, _, h3⟩ | ⟨h1, _, h3⟩ | ⟨h1, h3⟩
         · rw [h1]; exact .r_await e (by rw [← hxx]; exact h3)
         · rw [h1]; exact .r_fin e (by rw [← hxx]; exact h3)
         · rw [h1]; exact .r_rc e (by rw [← hxx]; exact h3)
       · obtain ⟨c0, c', hc0, hp, hxx, hg, rfl, hcx⟩ := settle_from hx0
-        refine ⟨_, hg, fun hh => hcx.trans hh, ?_⟩
+        refine ⟨_, hg, Or.inl hcx, ?_⟩
         rw [settleCall_pc_ne c0 (by rw [hp]; simp), hp, hpc]; exact .rc_fin
     case w1 w =>
       cases w <;> simp at hidx
@@ -504,10 +508,10 @@ theorem caller_step {s s' : St} {l : Label} (h : step s l = some s') {n : Nat} {
       rw [hpc]
       rcases hcase with ⟨hsd, hx0⟩ | ⟨hsd, hx0⟩
       · obtain ⟨c0, c', hc0, hp, hxx, hg, rfl, hcx⟩ := settle_from hx0
-        refine ⟨_, hg, fun hh => hcx.trans hh, ?_⟩
+        refine ⟨_, hg, Or.inl hcx, ?_⟩
         rw [settleCall_pc_ne c0 (by rw [hp]; simp), hp]; exact .w1_open hsd
       · obtain ⟨c0, c', hc0, hp, hxx, hg, rfl, hcx⟩ := settle_from hx0
-        refine ⟨_, hg, fun hh => hcx.trans hh, ?_⟩
+        refine ⟨_, hg, Or.inl hcx, ?_⟩
         rw [settleCall_pc_ne c0 (by rw [hp]; simp), hp]; exact .w1_closed hsd
     case w2 w =>
       cases w <;> simp at hidx
@@ -517,7 +521,7 @@ theorem caller_step {s s' : St} {l : Label} (h : step s l = some s') {n : Nat} {
       rw [hown]
       obtain ⟨e, hpc, hx0⟩ := own_w2 h0 hc
       obtain ⟨c0, c', hc0, hp, hxx, hg, rfl, hcx⟩ := settle_from hx0
-      refine ⟨_, hg, fun hh => hcx.trans hh, ?_⟩
+      refine ⟨_, hg, Or.inl hcx, ?_⟩
       rw [settleCall_pc_ne c0 (by rw [hp]; simp), hp, hpc]; exact .w2 e
   · have hown : l.ofCaller n = false := by
       cases l <;> simp [Label.callIdx] at hidx <;> simp [Label.ofCaller]
@@ -525,5 +529,13 @@ theorem caller_step {s s' : St} {l : Label} (h : step s l = some s') {n : Nat} {
         | (intro e; exact hidx e)
         | (rename_i w; cases w <;> simp_all)
     exact keep ((cpx_other h0 hc hidx).trans (cpx_some hc)) hown
+
+/-- A done context stays done. -/
+theorem caller_step_ctx_mono {s s' : St} {l : Label} (h : step s l = some s') {n : Nat} {c : Call} (hc : getCall s n = some c)
+    (hx : c.ctxDone = true) : ∃ c', getCall s' n = some c' ∧ c'.ctxDone = true ∧
+      CStep s.shuttingDown true (l.ofCaller n) c.pc c'.pc := by
+  obtain ⟨c', hc', hx', hcs⟩ := caller_step h hc
+  rw [hx] at hcs
+  exact ⟨c', hc', hx'.elim (fun e => e.trans hx) (fun e => e.2), hcs⟩
 
 end Conn
